@@ -92,8 +92,8 @@ def check(ctx, node, assigns, replay):
     # sometimes a placed sub-solver is flattened in place first (its own pin table is re-ordered by that); the parent must
     # still see the same block, before and after its own flatten()
     import random as _random
-    rr = _random.Random(repr(replay.get("node", replay))[:2000])
-    if rr.random() < 0.4:
+    rr = _random.Random(str(replay.get("inner_seed", 0)))
+    if replay.get("inner_first"):
         nested = []
 
         def walk(sv, seen):
@@ -251,7 +251,7 @@ def run(ctx):
         for _ in range(3):
             assigns.append({x: rng.randint(-8, 8) / 8 for x in vis if rng.random() < 0.6})
         # also try names that exist only below (must stay shielded / ineffective in the same way)
-        replay = {"tree": hier.describe(node), "assigns": assigns}
+        replay = {"tree": hier.describe(node), "assigns": assigns, "inner_first": rng.random() < 0.4, "inner_seed": rng.randrange(10 ** 9)}
         d = hier.depth(node)
         ctx.case(replay["tree"], nontrivial=(d >= 2 and has_rename(node)), tags=[f"depth:{d}", "renamed" if has_rename(node) else "plain"],
                  sample={"depth": d, "visible": vis} if i < 2 else None)
@@ -262,7 +262,7 @@ def run(ctx):
         node = deep_twice_case(rng)
         vis = visible(node)
         assigns = [{}] + [{x: rng.randint(-8, 8) / 8 for x in vis if rng.random() < 0.8} for _ in range(3)]
-        replay = {"tree": hier.describe(node), "assigns": assigns}
+        replay = {"tree": hier.describe(node), "assigns": assigns, "inner_first": rng.random() < 0.4, "inner_seed": rng.randrange(10 ** 9)}
         ctx.case(replay["tree"], tags=["stream:deep-twice"])
         check(ctx, node, assigns, replay)
 
